@@ -19,7 +19,10 @@ RULE = ('core: ALL expression trees with up to K leaves (K=3 quick, K=4 '
         'policies (plain; blanks around colon and inside parentheses; + signs '
         'and double blanks; every internal node parenthesised with adjacent '
         ')( and #n#m glued); plus random trees up to 12 leaves with facet '
-        'literals s.k and n-ary operators; every string sits in a real cell '
+        'literals s.k and n-ary operators; plus complete decks (e2e) whose '
+        'cells are such trees over planes, spheres, RPP and RCC facets, half '
+        'of them moved by a TRCL, judged by the region oracle; every string '
+        'sits in a real cell '
         'card with options so that cellcard.split decides where geometry '
         'ends; distinct = distinct strings; non-trivial = at least 2 leaves')
 ASSUMPTIONS = [
@@ -318,7 +321,105 @@ _RANDOM_BATCHES = {'quick': 16, 'thorough': 400}
 def plan(tier):
     ncore = core_size(_CORE_LEAVES[tier]) * len(POLICIES)
     nbatch = (ncore + BATCH - 1) // BATCH
-    return [('core', nbatch), ('random', _RANDOM_BATCHES[tier])]
+    return [('core', nbatch), ('random', _RANDOM_BATCHES[tier]),
+            ('e2e', _E2E[tier])]
+
+
+_E2E = {'quick': 40, 'thorough': 1500}
+
+
+def e2e_deck(rng):
+    '''Random trees with facet literals in a complete deck, some cells moved
+    by a TRCL: the Boolean function must survive the whole conversion, not
+    only parsing and complement elimination.'''
+    import numpy as np
+    from ..decks import WORLD_SURF
+    from ..gen_surf import motion_of_class, rnd, tr_spec
+    from ..mcnp_ref import Motion
+    deck = M.Deck('C11 e2e')
+    deck.world = 12.0
+    macro = {}
+    for sid in range(1, 10):
+        roll = rng.random()
+        if roll < 0.25:
+            lo = [rnd(rng, -4, 0) for _ in range(3)]
+            par = []
+            for val in lo:
+                par += [val, val + rnd(rng, 2, 5)]
+            deck.surfs.append(M.Surf(sid, 'rpp', par))
+            macro[sid] = 6
+        elif roll < 0.35:
+            deck.surfs.append(M.Surf(sid, 'rcc', [rnd(rng, -2, 2), rnd(rng, -2, 2),
+                                                  rnd(rng, -3, 0), 0, 0,
+                                                  rnd(rng, 2, 5), rnd(rng, 1, 3)]))
+            macro[sid] = 3
+        elif roll < 0.6:
+            deck.surfs.append(M.Surf(sid, 's', [rnd(rng, -3, 3), rnd(rng, -3, 3),
+                                                rnd(rng, -3, 3), rnd(rng, 2, 5)]))
+        else:
+            deck.surfs.append(M.Surf(sid, rng.choice(['px', 'py', 'pz']),
+                                     [rnd(rng, -4, 4)]))
+    deck.surfs.append(M.Surf(WORLD_SURF, 'so', [12.0]))
+
+    def fix(expr):
+        kind = expr[0]
+        if kind == 's':
+            _, sid, sign, facet = expr
+            if sid in macro:
+                facet = None if facet is None or rng.random() < 0.3 else \
+                    1 + (facet - 1) % macro[sid]
+            else:
+                facet = None
+            return ('s', sid, sign, facet)
+        if kind == '^':
+            return expr
+        if kind in ('#', 'g'):
+            return (kind, fix(expr[1]))
+        return (kind,) + tuple(fix(sub) for sub in expr[1:])
+    ncell = rng.randint(2, 5)
+    for num in range(1, ncell + 1):
+        tree = random_tree(rng, rng.randint(1, 3), 8)
+        while M.expr_size(tree) > 8 or list(M.expr_cellrefs(tree)):
+            tree = random_tree(rng, 2, 8)
+        cel = M.Cell(num, mat=1, rho=f'-{num}.5',
+                     geom=M.AND(fix(tree), M.S(-WORLD_SURF)), imp={'n': '1'})
+        if num > 1 and rng.random() < 0.3:
+            cel.geom = M.AND(cel.geom, M.CELLC(rng.randint(1, num - 1)))
+        if rng.random() < 0.5:
+            cls = rng.choice(['translation', 'generic', 'quarter'])
+            mot = Motion([rnd(rng, -2, 2) for _ in range(3)],
+                         motion_of_class(rng, cls).b)
+            cel.trcl = tr_spec(rng, mot, 'inline3' if cls == 'translation'
+                               else rng.choice(['inline12', 'star']))
+        deck.cells.append(cel)
+    deck.cells.append(M.Cell(900, mat=0, geom=M.S(WORLD_SURF), imp={'n': '0'}))
+    deck.mats.append(M.Material(1, [('13027', '1')]))
+    deck.hints = [np.zeros(3)]
+    return deck
+
+
+def run_e2e(case, ctx, out):
+    from ..judge import convert_deck, crash_violation, region_agreement, \
+        summarise
+    deck = e2e_deck(case.rng)
+    out.structure = 'e2e:' + ';'.join(M.render_expr(c.geom)
+                                      for c in deck.cells)
+    run_ = convert_deck(case, ctx, out, deck)
+    if not run_.ok:
+        crash_violation(out, run_)
+        return out
+    res = region_agreement(case, ctx, out, deck, run_, n_uniform=1500)
+    if res is None:
+        return out
+    _sides, mism, pts, _t4 = res
+    out.counters['e2e_decks'] += 1
+    out.counters['e2e_probes'] += len(pts)
+    out.nontrivial = out.judged >= 200
+    out.sample = {'cells': [' '.join(M.cell_atoms(deck, c))
+                            for c in deck.cells[:3]]}
+    if mism:
+        out.violation('boolean-function-e2e', summarise(mism))
+    return out
 
 
 def random_tree(rng, depth, nleaf_cap):
@@ -345,6 +446,8 @@ def run(case, ctx):
     rng = case.rng
     items = []
     pol_names = list(POLICIES)
+    if case.family == 'e2e':
+        return run_e2e(case, ctx, out)
     if case.family == 'core':
         maxleaves = _CORE_LEAVES[case.tier]
         start = case.index * BATCH
